@@ -135,4 +135,14 @@ PROPS = {
         rule='case = one operation history; distinct = hash of the rendered history; every history with >=1 operation is non-trivial.',
         exhaustive=dict(quick=False, thorough=False),
         assumptions=['reference undo model harness/c15.cpp']),
+    'C19': dict(
+        level_text='Runtime monitoring against a reference model: random histories (1..40 operations over 2..6 slots x 1..3 sub-automations) of createBinding (with/without learn, bindable and non-bindable ports), clearSlot, clearSlotSub, gain/offset + updateMapping, setSlot (values in and outside [0,1]), handleMidi with bound/unbound controllers and NRPN value messages are applied to the real AutomationMgr and to a reference learn FIFO / binding map in lock-step; after every operation learn_queue_len and every slot\'s learning position, midi_cc and midi_nrpn must agree with the model. Every message handed to the backend is checked: one per used sub-automation, address and type of the bound parameter, value inside the declared [min,max], non-decreasing in the slot value for positive gain, and at default gain/offset equal to the linear (or log-scale, rel. 2e-5) image of the slot value.',
+        level_note='Trusts the reference model in harness/c19.cpp. NRPN parameter numbers are selected once at the start of a history with a full nrpnhi/nrpnlo pair. Integer outputs within 1e-4 of a rounding boundary may round either way.',
+        technique='reference state-machine monitor in lock-step + output-constraint monitor, AddressSanitizer/UBSan',
+        stages=[dict(harness='c19', variant='asan', quick=20000, thorough=1000000,
+                     need=['ops.createBinding', 'ops.learn_requests', 'ops.clearSlot', 'ops.clear_nonlearning_while_others_wait', 'ops.setSlot', 'ops.gain_offset',
+                           'midi.bound_cc', 'midi.learned_cc', 'midi.unbound_ignored', 'midi.bound_nrpn', 'midi.learned_nrpn', 'out.messages', 'out.monotone_checked', 'out.linearity_checked'])],
+        rule='case = one operation history; distinct = hash of the rendered history; every history is non-trivial.',
+        exhaustive=dict(quick=False, thorough=False),
+        assumptions=['reference automation model harness/c19.cpp']),
 }
